@@ -671,3 +671,142 @@ func (ev *kindEval) member(pk *pkgT, ix *ast.IndexExpr, kindOf func(ast.Expr) (c
 	}
 	return triOf(keys[k.ExactString()])
 }
+
+// ---------------------------------------------------------------- AT1
+
+// RuleAT1: kinds of one class admit the same children. The enumeration has boolean class
+// predicates written as `switch de { case A, B, C: return true }` (IsHTTPRequestMethod); the
+// kinds of one class are interchangeable everywhere else in the code, so their rows in the
+// allowed-children table list the same kinds. A row that admits one kind more (PATCH alone
+// taking a TAG) makes a declaration that follows a block of that kind its child instead of
+// a top-level declaration: it is silently lost, or the references to it fail.
+func RuleAT1(c *Ctx) {
+	sc := c.Run.Begin("AT1", "for every class predicate of directive.Enumeration (a switch that answers true for a list of kinds) the rows of the allowed-children table for the kinds of the class are equal", 1)
+	defer sc.End()
+	dpk := c.P.Pkg("directive")
+	enumT := c.Named("directive", "Enumeration")
+	if dpk == nil || enumT == nil {
+		sc.Undecided("anchors", "-", "unresolved anchor: directive.Enumeration")
+		return
+	}
+	info := dpk.TypesInfo
+	nameOf := map[string]string{}
+	for _, k := range EnumConsts(dpk, enumT) {
+		nameOf[k.Val().ExactString()] = k.Name()
+	}
+	// the table rows
+	rows := map[string]map[string]bool{}
+	for _, file := range dpk.Syntax {
+		for _, decl := range file.Decls {
+			gd, ok := decl.(*ast.GenDecl)
+			if !ok || gd.Tok != token.VAR {
+				continue
+			}
+			for _, sp := range gd.Specs {
+				vs, ok := sp.(*ast.ValueSpec)
+				if !ok || len(vs.Values) != 1 {
+					continue
+				}
+				cl, ok := ast.Unparen(vs.Values[0]).(*ast.CompositeLit)
+				if !ok {
+					continue
+				}
+				mt, ok := info.TypeOf(cl).Underlying().(*types.Map)
+				if !ok || !types.Identical(mt.Key(), enumT) {
+					continue
+				}
+				if inner, ok := mt.Elem().Underlying().(*types.Map); !ok || !types.Identical(inner.Key(), enumT) {
+					continue
+				}
+				for _, el := range cl.Elts {
+					kv, ok := el.(*ast.KeyValueExpr)
+					if !ok {
+						continue
+					}
+					ktv, ok := info.Types[kv.Key]
+					if !ok || ktv.Value == nil {
+						continue
+					}
+					row := map[string]bool{}
+					ast.Inspect(kv.Value, func(n ast.Node) bool {
+						if e, ok := n.(ast.Expr); ok {
+							if tv, ok := info.Types[e]; ok && tv.Value != nil && types.Identical(tv.Type, enumT) {
+								row[tv.Value.ExactString()] = true
+							}
+						}
+						return true
+					})
+					rows[ktv.Value.ExactString()] = row
+				}
+			}
+		}
+	}
+	if len(rows) == 0 {
+		sc.Undecided("table", "-", "unresolved anchor: the allowed-children table")
+		return
+	}
+	n := 0
+	for i := 0; i < enumT.NumMethods(); i++ {
+		m := enumT.Method(i)
+		sig := m.Type().(*types.Signature)
+		if sig.Params().Len() != 0 || sig.Results().Len() != 1 {
+			continue
+		}
+		if b, ok := sig.Results().At(0).Type().Underlying().(*types.Basic); !ok || b.Kind() != types.Bool {
+			continue
+		}
+		fd := c.P.Decl(m)
+		if fd == nil {
+			continue
+		}
+		set, ok := enumPredTrueSet(info, fd)
+		if !ok || len(set) < 2 {
+			continue
+		}
+		var members []string
+		for k := range set {
+			if _, has := rows[k]; has {
+				members = append(members, k)
+			}
+		}
+		if len(members) < 2 || len(members) != len(set) {
+			continue // not a class of kinds that all have a context of their own
+		}
+		sort.Slice(members, func(a, b int) bool { return nameOf[members[a]] < nameOf[members[b]] })
+		n++
+		// majority row as the reference
+		count := map[string]int{}
+		sigOf := func(k string) string {
+			var ks []string
+			for x := range rows[k] {
+				ks = append(ks, nameOf[x])
+			}
+			sort.Strings(ks)
+			return strings.Join(ks, ",")
+		}
+		for _, k := range members {
+			count[sigOf(k)]++
+		}
+		ref, best := "", 0
+		for s, cnt := range count {
+			if cnt > best || (cnt == best && s < ref) {
+				ref, best = s, cnt
+			}
+		}
+		var odd []string
+		for _, k := range members {
+			if s := sigOf(k); s != ref {
+				odd = append(odd, fmt.Sprintf("%s admits {%s}", nameOf[k], s))
+			}
+		}
+		key := m.Name()
+		if len(odd) == 0 {
+			sc.Holds(key, c.P.Pos(fd.Pos()), fmt.Sprintf("the %d kinds of the class admit the same children {%s}", len(members), ref))
+		} else {
+			sc.Violation(key, c.P.Pos(fd.Pos()), fmt.Sprintf("kinds of one class (%s) admit different children: %s, the others {%s} - a declaration written after a block of the odd kind nests into it instead of standing on its own", m.Name(), strings.Join(odd, "; "), ref))
+		}
+	}
+	if n == 0 {
+		sc.Undecided("classes", "-", "no class predicate whose kinds all have a row in the table")
+	}
+}
